@@ -121,6 +121,10 @@ class Pseudo2NetCDF:
             typecode = pvar.typecode()
         except Exception:
             typecode = pvar[...].dtype.char
+            if typecode == 'S':
+                # numpy's code for a character array; 'S' alone would be
+                # read as a zero-length string type
+                typecode = 'c'
 
         create_variable_kwds = self.create_variable_kwds.copy()
         if hasattr(pvar, 'missing_value'):
